@@ -146,7 +146,7 @@ func (env *aareEnv) expandVars(p string, depth int) ([]string, error) {
 	if i < 0 {
 		return []string{p}, nil
 	}
-	if depth > 8 {
+	if depth > 24 {
 		return nil, fmt.Errorf("too many variables in %q", p)
 	}
 	j := strings.IndexByte(p[i:], '}')
